@@ -34,7 +34,13 @@ Readings adopted (S3):
     of every successful advance_egress; a successful advance_ingress inside a segment / at the
     last hop legitimately leaves CurrHF where it is.
   * double-bit corruptions must be detected no later than at the LATER of the two owners.
-  * peering segments are outside this check (the API has no peering support; see C01/C13).
+  * peering: PathHeader.tla carries SCION's peering rule as a switch (PEERIMPL): peer hop field MACed under
+    the accumulator after the AS's regular hop field, no SegID update at a peer hop field, segment change at
+    egress.  TLC shows that rule verifies authentic peering paths (PeeringVerifies, both directions, with
+    tamper detection at the owner) and is monotone; the CODE ignores the PEERING flag (PEERIMPL = FALSE is
+    what the replayed cells and journeys are generated from), so authentic peering journeys are rejected by
+    the real API: reported under the narrowly keyed OPEN finding
+    AuthenticRejected:peering:advance-ignores-PEERING-flag (same root cause as C01/C13's peering findings).
 """
 import json
 import os
@@ -53,12 +59,14 @@ CONSTANTS
   FIXOHEXP = TRUE
   FIXOHFLG = TRUE
   FIXOHSEC = TRUE
+  PEERIMPL = {peerimpl}
   XorAcc <- SymXor
   MAXLEN = {maxlen}
   ALLCH = {allch}
   Depth = {depth}
   GEN = {gen}
   ALS = {als}
+  PEERS = {peers}
 INVARIANTS Bounded Emit
 PROPERTIES ErrIsAtomicStep MonotoneStep EgressForwardStep XoverForwardStep
 """
@@ -73,13 +81,15 @@ CONSTANTS
   FIXOHEXP = TRUE
   FIXOHFLG = TRUE
   FIXOHSEC = TRUE
+  PEERIMPL = {peerimpl}
   XorAcc <- SymXor
   MINLEN = 2
   MAXLEN = {maxlen}
   MAXSEG = {maxseg}
   GEN = {gen}
   BROKEN = "{broken}"
-INVARIANTS OneHopVerifies AuthenticVerifies TamperDetectedAtOwner StepsBounded Emit
+  PEERPATHS = TRUE
+INVARIANTS {peerinv} OneHopVerifies AuthenticVerifies TamperDetectedAtOwner StepsBounded Emit
 """
 
 
@@ -95,7 +105,7 @@ def cell_key(cell):
     if cell.get("kind") == "double":
         return "double-flips %s" % "".join(("c" if p["cd"] else "r") + str(p["n"]) for p in cell["pieces"])
     if cell.get("kind") == "walk":
-        return "walk %s tamper %s@%s" % ("".join(("c" if p["cd"] else "r") + str(p["n"]) for p in cell["pieces"]),
+        return "walk %s%s tamper %s@%s" % ("peering " if cell.get("peering") else "", "".join(("c" if p["cd"] else "r") + str(p["n"]) for p in cell["pieces"]),
                                         cell["tamper"]["f"], cell["tamper"]["at"])
     return "sl%s ci%d ch%d cd%s al%d" % ("".join(map(str, cell["sl"])), cell["ci"], cell["ch"],
                                          "".join("1" if x else "0" for x in cell["cd"]), 1 if cell.get("al") else 0)
@@ -105,7 +115,7 @@ def replay_cases(c, binp, cases, tag):
     inp = os.path.join(c.work, "cases_%s.ndjson" % tag)
     outp = os.path.join(c.work, "cases_%s_out.ndjson" % tag)
     write_ndjson(inp, cases)
-    rc, so = c.sh([binp, "c11-replay", inp, outp], timeout=3000)
+    rc, so = c.sh([binp, "c11-replay", inp, outp], timeout=9000)
     if rc is not None and rc < 0:
         # the harness process was killed by a signal while it executed the code under test (only unsafe
         # code in /repo can do that): an observation, not a tool problem (DESIGN.md S1)
@@ -127,7 +137,7 @@ def replay_cases(c, binp, cases, tag):
                 st["walks"] += 1
                 st["flips"] += res.get("flips", 0)
                 st["nontrivial"] += 1 if (len(case["pieces"]) > 1 or case["tamper"]["f"] != "none") else 0
-                k = "walk:" + ("authentic" if case["tamper"]["f"] == "none" else "tamper-" + case["tamper"]["f"])
+                k = "walk:" + ("peering:" if case.get("peering") else "") + ("authentic" if case["tamper"]["f"] == "none" else "tamper-" + case["tamper"]["f"])
                 st["outcomes"][k] = st["outcomes"].get(k, 0) + 1
             else:
                 # outcome classes are counted on the GENERATED cell (specification side)
@@ -198,7 +208,7 @@ def binding_selftest(c, ev):
     for name, ls in variants.items():
         pth = os.path.join(c.work, "self_%s.ndjson" % name)
         write_ndjson(pth, ls)
-        r = c.tlc(SD, "Trace_PathHeader", mode="trace", env={"TRACE": pth}, timeout=1200, expect_violation=True)
+        r = c.tlc(SD, "Trace_PathHeader", mode="trace", env={"TRACE": pth}, timeout=6000, expect_violation=True)
         accepted = r.ok and not r.postcondition_failed and not r.violated
         if accepted:
             c.fail_tool("binding self-test: trace variant '%s' was accepted - the trace spec does not constrain the code" % name)
@@ -234,11 +244,14 @@ def run(c):
     # every cell x every call (depth 1) with generation; call sequences on a second run.
     # thorough: every CurrHF value 0..63 with alerts unset + the quick pointer range with alerts set
     BOTH = "{TRUE, FALSE}"
-    gens = [("adv.cfg", "FALSE", BOTH)] if not thorough else [("adv_allch.cfg", "TRUE", "{FALSE}"), ("adv_al.cfg", "FALSE", "{TRUE}")]
+    # (PEERS: the PEERING flag set on every info field - the code ignores it, so does the I-spec with PEERIMPL = FALSE)
+    NOP = "{FALSE}"
+    gens = [("adv.cfg", "FALSE", BOTH, NOP)] if not thorough else [("adv_allch.cfg", "TRUE", "{FALSE}", NOP), ("adv_al.cfg", "FALSE", "{TRUE}", NOP),
+                                                                   ("adv_peerflag.cfg", "FALSE", "{FALSE}", "{TRUE}")]
     cells = []
-    for name, allch, als in gens:
-        p = cfg(c, name, ADV_TMPL.format(chmod=64, fixwrap="TRUE", maxlen=3, allch=allch, depth=1, gen="TRUE", als=als))
-        r = c.tlc(SD, "MC_PathAdvance", cfg=p, timeout=6000)
+    for name, allch, als, peers in gens:
+        p = cfg(c, name, ADV_TMPL.format(chmod=64, fixwrap="TRUE", maxlen=3, allch=allch, depth=1, gen="TRUE", als=als, peers=peers, peerimpl="FALSE"))
+        r = c.tlc(SD, "MC_PathAdvance", cfg=p, timeout=12000)
         for inv in r.violated:
             c.violation("spec:%s" % inv, "design-level: %s violated on MC_PathAdvance; see %s" % (inv, r.out_path), {"tlc_out": r.out_path})
         if r.ok:
@@ -250,20 +263,27 @@ def run(c):
     for d in cells:
         d["kind"] = "cell"
     rs = c.tlc(SD, "MC_PathAdvance", cfg=cfg(c, "adv_seq.cfg", ADV_TMPL.format(
-        chmod=64, fixwrap="TRUE", maxlen=3 if thorough else 2, allch="FALSE", depth=3 if thorough else 2, gen="FALSE", als=BOTH)), timeout=6000, coverage=False)
+        chmod=64, fixwrap="TRUE", maxlen=3 if thorough else 2, allch="FALSE", depth=3 if thorough else 2, gen="FALSE", als=BOTH, peers=NOP, peerimpl="FALSE")), timeout=12000, coverage=False)
     for inv in rs.violated:
         c.violation("spec:%s:sequences" % inv, "design-level: %s violated on call sequences; see %s" % (inv, rs.out_path), {"tlc_out": rs.out_path})
     r0 = c.tlc(SD, "MC_PathAdvance", cfg=cfg(c, "adv_wrap.cfg", ADV_TMPL.format(
-        chmod=4, fixwrap="FALSE", maxlen=3, allch="TRUE", depth=1, gen="FALSE", als=BOTH)), expect_violation=True, coverage=False)
+        chmod=4, fixwrap="FALSE", maxlen=3, allch="TRUE", depth=1, gen="FALSE", als=BOTH, peers=NOP, peerimpl="FALSE")), expect_violation=True, coverage=False)
     if not ({"MonotoneStep", "EgressForwardStep", "Bounded"} & set(r0.violated)):
         c.fail_tool("oracle self-check failed: a wrapping 2-bit CurrHF no longer violates Monotone in the model")
-    r1 = c.tlc(SD, "MC_PathAdvance", cfg=cfg(c, "adv_smallptr.cfg", ADV_TMPL.format(
-        chmod=4, fixwrap="TRUE", maxlen=3, allch="TRUE", depth=2 if thorough else 1, gen="FALSE", als=BOTH)), coverage=False, timeout=6000)
-    for inv in r1.violated:
-        c.violation("spec:%s:small-currhf" % inv, "design-level: %s violated with a 2-bit CurrHF field; see %s" % (inv, r1.out_path), {"tlc_out": r1.out_path})
+    if thorough:
+        r1 = c.tlc(SD, "MC_PathAdvance", cfg=cfg(c, "adv_smallptr.cfg", ADV_TMPL.format(
+            chmod=4, fixwrap="TRUE", maxlen=3, allch="TRUE", depth=2, gen="FALSE", als=BOTH, peers=NOP, peerimpl="FALSE")), coverage=False, timeout=12000)
+        for inv in r1.violated:
+            c.violation("spec:%s:small-currhf" % inv, "design-level: %s violated with a 2-bit CurrHF field; see %s" % (inv, r1.out_path), {"tlc_out": r1.out_path})
+        # SCION's peering rule (reference, PEERIMPL = TRUE) is a monotone state machine too
+        r2 = c.tlc(SD, "MC_PathAdvance", cfg=cfg(c, "adv_refpeer.cfg", ADV_TMPL.format(
+            chmod=64, fixwrap="TRUE", maxlen=3, allch="FALSE", depth=2, gen="FALSE", als="{FALSE}", peers="{TRUE}", peerimpl="TRUE")), coverage=False, timeout=12000)
+        for inv in r2.violated:
+            c.violation("spec:%s:reference-peering" % inv, "design-level: %s violated by the reference peering rule; see %s" % (inv, r2.out_path), {"tlc_out": r2.out_path})
 
     # ---- 2. authentication level -----------------------------------------------------------------------
-    r = c.tlc(SD, "PathWalk", cfg=cfg(c, "walk.cfg", WALK_TMPL.format(maxlen=4 if thorough else 3, maxseg=3, gen="TRUE", broken="none")), timeout=3000)
+    # the journeys (incl. peering paths) under the CODE's rule (PEERING flag ignored): generation for replay
+    r = c.tlc(SD, "PathWalk", cfg=cfg(c, "walk.cfg", WALK_TMPL.format(maxlen=4 if thorough else 3, maxseg=3, gen="TRUE", broken="none", peerimpl="FALSE", peerinv="")), timeout=12000)
     for inv in r.violated:
         c.violation("spec:%s" % inv, "design-level: %s violated on PathWalk; see %s" % (inv, r.out_path), {"tlc_out": r.out_path})
     if r.ok:
@@ -273,11 +293,21 @@ def run(c):
         c.fail_tool("PathWalk printed no journeys")
     for d in walks:
         d["kind"] = "walk"
-    for broken, inv in (("no_ts", "TamperDetectedAtOwner"), ("segid_init", "AuthenticVerifies")):
-        rb = c.tlc(SD, "PathWalk", cfg=cfg(c, "walk_%s.cfg" % broken, WALK_TMPL.format(maxlen=2, maxseg=2, gen="FALSE", broken=broken)),
+    # SCION's peering rule (reference): authentic peering paths verify in both directions and every
+    # replaced authenticated field is detected at its owner; the code's rule refutes PeeringVerifies
+    # (this is the specification-level statement of the open finding AuthenticRejected:peering:...)
+    rr = c.tlc(SD, "PathWalk", cfg=cfg(c, "walk_refpeer.cfg", WALK_TMPL.format(maxlen=3, maxseg=2 if not thorough else 3, gen="FALSE", broken="none", peerimpl="TRUE", peerinv="PeeringVerifies")),
+               timeout=12000, coverage=False)
+    for inv in rr.violated:
+        c.violation("spec:%s:reference-peering" % inv, "design-level: %s violated by the reference peering rule on PathWalk; see %s" % (inv, rr.out_path), {"tlc_out": rr.out_path})
+    selfchecks = [("none", "FALSE", "PeeringVerifies", "PeeringVerifies"), ("no_ts", "FALSE", "", "TamperDetectedAtOwner")]
+    if thorough:
+        selfchecks.append(("segid_init", "FALSE", "", "AuthenticVerifies"))
+    for broken, pi, pinv, inv in selfchecks:
+        rb = c.tlc(SD, "PathWalk", cfg=cfg(c, "walk_self_%s_%s.cfg" % (broken, inv), WALK_TMPL.format(maxlen=2, maxseg=2, gen="FALSE", broken=broken, peerimpl=pi, peerinv=pinv)),
                    expect_violation=True, coverage=False)
         if inv not in rb.violated:
-            c.fail_tool("oracle self-check failed: BROKEN=%s no longer violates %s" % (broken, inv))
+            c.fail_tool("oracle self-check failed: BROKEN=%s PEERIMPL=%s no longer violates %s" % (broken, pi, inv))
     c.cov["exhaustive"] = True
 
     # ---- 3. replay -----------------------------------------------------------------------------------------
@@ -291,7 +321,7 @@ def run(c):
     st = replay_cases(c, binp, cells + walks + doubles + ohj, "all")
     need = ["ing_int:ok:egress", "ing_int:ok:local", "ing_ext:ok:egress", "ing_ext:ok:local", "egr:ok:egress",
             "egr:err:final_hop", "egr:err:segment_end", "ing_ext:err:single_hop_segment", "ing_ext:err:segment_mismatch",
-            "ing_ext:err:hop_oob", "ing_ext:err:info_oob", "walk:authentic", "walk:tamper-mac", "walk:tamper-sid", "walk:tamper-ts"]
+            "ing_ext:err:hop_oob", "ing_ext:err:info_oob", "walk:authentic", "walk:tamper-mac", "walk:tamper-sid", "walk:tamper-ts", "walk:peering:authentic"]
     for k in need:
         if st["outcomes"].get(k, 0) == 0:
             c.fail_tool("vacuous replay: outcome class %s never produced (have %s)" % (k, sorted(st["outcomes"])))
@@ -311,7 +341,7 @@ def run(c):
     ev = os.path.join(c.work, "trace_c11.ndjson")
     resj = os.path.join(c.work, "trace_c11.json")
     runs = 1500 if thorough else 350
-    rc, so = c.sh([binp, "record", ev, resj, "c11"], env={"VERIF_RUNS": runs}, timeout=3000)
+    rc, so = c.sh([binp, "record", ev, resj, "c11"], env={"VERIF_RUNS": runs}, timeout=9000)
     if rc is not None and rc < 0:
         c.violation("Crash:record:signal%d" % -rc, "the recording harness died with signal %d while calling the path API (memory-unsafe behaviour of the code under test)" % -rc,
                     {"kind": "crash", "step": "record"})
@@ -319,7 +349,7 @@ def run(c):
     if rc != 0:
         c.fail_tool("record harness failed rc=%s %s" % (rc, (so or "")[-500:]))
     res = json.load(open(resj))
-    r = c.tlc(SD, "Trace_PathHeader", mode="trace", env={"TRACE": ev}, timeout=3000)
+    r = c.tlc(SD, "Trace_PathHeader", mode="trace", env={"TRACE": ev}, timeout=9000)
     rp = {"kind": "record", "mode": "c11", "seed": c.seed, "runs": runs, "tier": c.tier}
     if r.violated:
         for inv in r.violated:
